@@ -24,10 +24,10 @@ func scenarios(tier string) []engine.Scenario {
 	var scs []engine.Scenario
 	chains := []chainT{tinyChain(), mixedChain(), bigChain()}
 	seqDepth, qpDepth, terDepth, gauDepth, crpDepth := 5, 3, 4, 4, 3
-	momentsReads, lvlDepth := 4096, 3
+	momentsReads, lvlDepth, encDepth := 4096, 3, 3
 	if thorough {
 		seqDepth, qpDepth, terDepth, gauDepth, crpDepth = 7, 4, 7, 6, 5
-		momentsReads, lvlDepth = 1<<16, 4
+		momentsReads, lvlDepth, encDepth = 1<<16, 4, 4
 	}
 	for _, ch := range chains {
 		scs = append(scs, uniformAnswersScenario(ch))
@@ -70,6 +70,9 @@ func scenarios(tier string) []engine.Scenario {
 		scs = append(scs, constructionLevelScenario(ch, lvlDepth))
 	}
 	scs = append(scs, ringqpConstructionLevelScenario(2))
+	for first := range encOps {
+		scs = append(scs, encryptorMaskStreamScenario(first, encDepth))
+	}
 	return scs
 }
 
@@ -108,6 +111,9 @@ func main() {
 			}
 			for _, o := range terOps {
 				e = append(e, "ternary-op="+o)
+			}
+			for _, o := range encOps {
+				e = append(e, "encryptor-op="+o.name)
 			}
 			for _, o := range crpKinds {
 				e = append(e, "crp-sequence="+o)
